@@ -433,7 +433,7 @@ OPS = ["set", "get", "del", "in", "len", "iter", "getd", "clear", "sync", "close
 MUST_FIRE = ["G_%s_%s" % (o, x) for o in OPS for x in ("ok", "ref")] + ["G_mutsrc", "G_occupy"]
 
 
-B_CAP = 1500          # Layer B traces per chunk (quick; thorough: 20000)
+B_CAP = 1500          # Layer B traces per chunk (quick; thorough: 6000)
 SHELF_MUST_FIRE = ("Set", "Get", "GetDefault", "Del", "In", "LenOp", "Iter", "ReadAll", "Clear", "Sync", "Close", "Create", "FromDict",
                    "OpenMissing", "MutSrc", "Occupy")
 SHELF_TWINS = ("delKeepsCache", "setSkipsDbm", "clearCacheOnly")
@@ -734,7 +734,7 @@ def main(argv_tier=None, replay_path=None):
 
     quick = tr == "quick"
     global B_CAP
-    B_CAP = 1500 if quick else 20000
+    B_CAP = 1500 if quick else 6000
     # 1. the model
     g, acts = model_check()
     shelf = model_check_shelf()
